@@ -34,23 +34,20 @@ theorem reno_new_ack (c : CCState ℚ) (rtt now : ℚ) :
     split_ifs <;> rfl
   · intro h; exact reno_ack_safe c rtt now (Or.inr (ne_of_gt h))
 
-/-- the same at the sender: a new ACK outside fast recovery (`dupack = 0`) on a Reno sender -/
+/-- the same at the sender: a new ACK outside fast recovery (`dupack < 3`: none, one or two duplicates counted, so
+nothing is deflated) on a Reno sender grows the *current* window by the Reno rule and clears the duplicate count -/
 theorem reno_new_ack_at_sender (s : Sender ℚ) (a : AckIn ℚ) (h : Inv s) (hk : s.kind = .reno) (hok : AckOk s a)
-    (hnew : a.ackno ≠ s.last_ack) (h0 : s.dupack = 0) :
+    (hnew : a.ackno ≠ s.last_ack) (h0 : s.dupack < 3) :
     ∃ s', s.step (.ack a) = .ok s' [] ∧ s'.cc.cwnd = renoGrow s.cc.mss s.cc.cwnd s.cc.ssthresh ∧
       s'.cc.ssthresh = s.cc.ssthresh ∧ s'.last_ack = a.ackno ∧ s'.dupack = 0 := by
-  have h0' : ¬ s.dupack > 0 := by omega
-  obtain ⟨T, S, r, _⟩ := newAck_spec s a h.cc.weak h.keys h.nodup
-  have r' : s.step (.ack a) = s.newAck a := by
-    show s.ackStep a = _
-    rw [ackStep_new s a hok hnew]; simp only [h0', if_false]
-  rw [r] at r'
-  refine ⟨_, r', ?_, ?_, rfl, h0⟩
-  · show (CC.ackReceived s.kind s.cc (TCPPacketGenerator.put_sample_rtt s.now a.ptime) s.now).cwnd = _
-    rw [hk]; show (TCPReno.ack_received s.cc (TCPPacketGenerator.put_sample_rtt s.now a.ptime) s.now).cwnd = _
+  obtain ⟨T, S, r, _⟩ := ackStep_new_spec s a h.cc h.keys h.nodup hok hnew
+  have hcc : ccBeforeNew s = s.cc := by unfold ccBeforeNew; rw [if_neg (by omega)]
+  refine ⟨_, r, ?_, ?_, rfl, rfl⟩
+  · show (CC.ackReceived s.kind (ccBeforeNew s) (TCPPacketGenerator.put_sample_rtt s.now a.ptime) s.now).cwnd = _
+    rw [hk, hcc]; show (TCPReno.ack_received s.cc (TCPPacketGenerator.put_sample_rtt s.now a.ptime) s.now).cwnd = _
     rw [(reno_new_ack s.cc _ s.now).1]
-  · show (CC.ackReceived s.kind s.cc (TCPPacketGenerator.put_sample_rtt s.now a.ptime) s.now).ssthresh = _
-    rw [hk]; show (TCPReno.ack_received s.cc (TCPPacketGenerator.put_sample_rtt s.now a.ptime) s.now).ssthresh = _
+  · show (CC.ackReceived s.kind (ccBeforeNew s) (TCPPacketGenerator.put_sample_rtt s.now a.ptime) s.now).ssthresh = _
+    rw [hk, hcc]; show (TCPReno.ack_received s.cc (TCPPacketGenerator.put_sample_rtt s.now a.ptime) s.now).ssthresh = _
     rw [(reno_new_ack s.cc _ s.now).1]
 
 /-! ### duplicate ACKs -/
@@ -90,28 +87,48 @@ theorem more_dupacks (s : Sender ℚ) (a : AckIn ℚ) (hok : AckOk s a) (hd : a.
   · rw [hS]; exact ⟨rfl, rfl, rfl, rfl, rfl⟩
   · exact ⟨rfl, rfl, rfl, rfl, rfl⟩
 
-/-- **The next new ACK first deflates `cwnd` to `ssthresh` (generated `dupack_over`) and is then counted like any
-new ACK**: the resulting window is `ack_received` applied to the deflated state — for Reno and for CUBIC that is
-`ssthresh + MSS`, because the deflated window satisfies `cwnd ≤ ssthresh` — and `dupack` returns to 0.
-(The code applies this after any positive number of duplicates, also one or two; the theorem follows the code.) -/
+/-- **After the third duplicate ACK (fast recovery, `dupack ≥ 3`) the next new ACK first deflates `cwnd` to `ssthresh`
+(generated `dupack_over`) and is then counted like any new ACK**: the resulting window is `ack_received` applied to
+the deflated state — for Reno and for CUBIC that is `ssthresh + MSS`, because the deflated window satisfies
+`cwnd ≤ ssthresh` — and `dupack` returns to 0. -/
 theorem new_ack_after_dupacks (s : Sender ℚ) (a : AckIn ℚ) (h : Inv s) (hok : AckOk s a) (hnew : a.ackno ≠ s.last_ack)
-    (hdup : 0 < s.dupack) :
+    (hdup : 3 ≤ s.dupack) :
     (CongestionControl.dupack_over s.cc = { s.cc with cwnd := s.cc.ssthresh }) ∧
     ∃ s', s.step (.ack a) = .ok s' [] ∧ s'.dupack = 0 ∧ s'.last_ack = a.ackno ∧
       s'.cc = CC.ackReceived s.kind (CongestionControl.dupack_over s.cc)
                 (TCPPacketGenerator.put_sample_rtt s.now a.ptime) s.now ∧
       s'.cc.cwnd = s.cc.ssthresh + s.cc.mss ∧ s'.cc.ssthresh = s.cc.ssthresh := by
   refine ⟨rfl, ?_⟩
-  have hw : CCWeak s.kind (CongestionControl.dupack_over s.cc) := weak_dupack_over h.cc
-  obtain ⟨T, S, r, _⟩ := newAck_spec ({ s with cc := CongestionControl.dupack_over s.cc, dupack := 0 } : Sender ℚ) a hw
-    h.keys h.nodup
-  have hgt : s.dupack > 0 := hdup
-  have r' : s.step (.ack a) =
-      ({ s with cc := CongestionControl.dupack_over s.cc, dupack := 0 } : Sender ℚ).newAck a := by
-    show s.ackStep a = _
-    rw [ackStep_new s a hok hnew]; simp only [hgt, if_true]
-  rw [r] at r'
-  exact ⟨_, r', rfl, rfl, rfl, (ack_after_deflate s.kind s.cc _ s.now).1, (ack_after_deflate s.kind s.cc _ s.now).2⟩
+  obtain ⟨T, S, r, _⟩ := ackStep_new_spec s a h.cc h.keys h.nodup hok hnew
+  have hcc : ccBeforeNew s = CongestionControl.dupack_over s.cc := by unfold ccBeforeNew; rw [if_pos hdup]
+  rw [hcc] at r
+  exact ⟨_, r, rfl, rfl, rfl, (ack_after_deflate s.kind s.cc _ s.now).1, (ack_after_deflate s.kind s.cc _ s.now).2⟩
+
+/-- **A new ACK after only one or two duplicate ACKs is a plain new ACK: nothing is deflated.**  The window is
+`ack_received` applied to the *unchanged* state — exactly what the same ACK does with `dupack = 0` — so for both
+classes slow start (`cwnd ≤ ssthresh`) adds one MSS, and Reno congestion avoidance adds `MSS·MSS/cwnd`; `ssthresh`
+stays and `dupack` returns to 0.  (No fast retransmit has happened, so there is no inflated window to take back.) -/
+theorem new_ack_after_few_dupacks (s : Sender ℚ) (a : AckIn ℚ) (h : Inv s) (hok : AckOk s a) (hnew : a.ackno ≠ s.last_ack)
+    (hdup : 0 < s.dupack ∧ s.dupack < 3) :
+    ∃ s', s.step (.ack a) = .ok s' [] ∧ s'.dupack = 0 ∧ s'.last_ack = a.ackno ∧
+      s'.cc = CC.ackReceived s.kind s.cc (TCPPacketGenerator.put_sample_rtt s.now a.ptime) s.now ∧
+      (∃ s0, ({ s with dupack := 0 } : Sender ℚ).step (.ack a) = .ok s0 [] ∧ s0.cc = s'.cc) ∧
+      (s.cc.cwnd ≤ s.cc.ssthresh → s'.cc.cwnd = s.cc.cwnd + s.cc.mss) ∧
+      (s.kind = .reno → s'.cc.cwnd = renoGrow s.cc.mss s.cc.cwnd s.cc.ssthresh) ∧
+      s'.cc.ssthresh = s.cc.ssthresh := by
+  obtain ⟨T, S, r, _⟩ := ackStep_new_spec s a h.cc h.keys h.nodup hok hnew
+  have hcc : ccBeforeNew s = s.cc := by unfold ccBeforeNew; rw [if_neg (by omega)]
+  rw [hcc] at r
+  obtain ⟨T0, S0, r0, _⟩ := ackStep_new_spec ({ s with dupack := 0 } : Sender ℚ) a h.cc h.keys h.nodup hok hnew
+  have hcc0 : ccBeforeNew ({ s with dupack := 0 } : Sender ℚ) = s.cc := by
+    unfold ccBeforeNew; rw [if_neg (by show ¬ 3 ≤ 0; omega)]
+  rw [hcc0] at r0
+  have hp := ack_plain h.cc (TCPPacketGenerator.put_sample_rtt s.now a.ptime) s.now
+  refine ⟨_, r, rfl, rfl, rfl, ⟨_, r0, rfl⟩, hp.2, ?_, hp.1⟩
+  intro hk
+  show (CC.ackReceived s.kind s.cc (TCPPacketGenerator.put_sample_rtt s.now a.ptime) s.now).cwnd = _
+  rw [hk]; show (TCPReno.ack_received s.cc (TCPPacketGenerator.put_sample_rtt s.now a.ptime) s.now).cwnd = _
+  rw [(reno_new_ack s.cc _ s.now).1]
 
 /-! ### retransmission timeout -/
 
@@ -219,29 +236,16 @@ theorem rto_formula (s : Sender ℚ) (a : AckIn ℚ) (h : Inv s) (hok : AckOk s 
       s'.est.est_deviation = varNext s.est.rtt_estimate s.est.est_deviation (s.now - a.ptime) ∧
       s'.est.rto = s'.est.rtt_estimate + 4 * s'.est.est_deviation := by
   refine ⟨estimator_spec, ?_⟩
-  have key : ∀ s0 : Sender ℚ, CCWeak s0.kind s0.cc → s0.timers = s.timers → s0.sent = s.sent → s0.est = s.est →
-      s0.now = s.now → ∃ s', s0.newAck a = .ok s' [] ∧
-        s'.est.rtt_estimate = srttNext s.est.rtt_estimate (s.now - a.ptime) ∧
-        s'.est.est_deviation = varNext s.est.rtt_estimate s.est.est_deviation (s.now - a.ptime) ∧
-        s'.est.rto = s'.est.rtt_estimate + 4 * s'.est.est_deviation := by
-    intro s0 hw e1 e2 e3 e4
-    obtain ⟨T, S, r, _⟩ := newAck_spec s0 a hw (by rw [e1, e2]; exact h.keys) (by rw [e1]; exact h.nodup)
-    refine ⟨_, r, ?_, ?_, ?_⟩
-    · show (TCPPacketGenerator.put_estimator s0.est s0.now a.ptime).rtt_estimate = _
-      rw [estimator_spec, e3, e4]
-    · show (TCPPacketGenerator.put_estimator s0.est s0.now a.ptime).est_deviation = _
-      rw [estimator_spec, e3, e4]
-    · show (TCPPacketGenerator.put_estimator s0.est s0.now a.ptime).rto =
-        (TCPPacketGenerator.put_estimator s0.est s0.now a.ptime).rtt_estimate +
-          4 * (TCPPacketGenerator.put_estimator s0.est s0.now a.ptime).est_deviation
-      rw [estimator_spec]; rfl
-  show ∃ s', s.ackStep a = .ok s' [] ∧ _
-  rw [ackStep_new s a hok hnew]
-  by_cases h0 : s.dupack > 0
-  · simp only [h0, if_true]
-    exact key _ (weak_dupack_over h.cc) rfl rfl rfl rfl
-  · simp only [h0, if_false]
-    exact key _ h.cc.weak rfl rfl rfl rfl
+  obtain ⟨T, S, r, _⟩ := ackStep_new_spec s a h.cc h.keys h.nodup hok hnew
+  refine ⟨_, r, ?_, ?_, ?_⟩
+  · show (TCPPacketGenerator.put_estimator s.est s.now a.ptime).rtt_estimate = _
+    rw [estimator_spec]
+  · show (TCPPacketGenerator.put_estimator s.est s.now a.ptime).est_deviation = _
+    rw [estimator_spec]
+  · show (TCPPacketGenerator.put_estimator s.est s.now a.ptime).rto =
+      (TCPPacketGenerator.put_estimator s.est s.now a.ptime).rtt_estimate +
+        4 * (TCPPacketGenerator.put_estimator s.est s.now a.ptime).est_deviation
+    rw [estimator_spec]; rfl
 
 /-! ### sending -/
 
@@ -291,6 +295,15 @@ example : CCInv .cubic (TCPCubic.defaults : CCState ℚ) := by
 /-- … and a fresh generator around it (`rtt_estimate = 1`) satisfies the sender invariant. -/
 example : Inv (Sender.init .cubic (TCPCubic.defaults : CCState ℚ) 1 512 (some 5120) 0) :=
   inv_init _ _ _ _ _ _ (by refine ⟨?_, ?_, ?_, fun _ => ⟨?_, ?_⟩⟩ <;> simp [TCPCubic.defaults] <;> norm_num) (by norm_num)
+
+/-- the hypotheses of `new_ack_after_few_dupacks` are met: one duplicate counted, then the ACK of the next segment -/
+example : let s : Sender ℚ := { Sender.init .cubic (TCPCubic.defaults : CCState ℚ) 1 512 none 0 with dupack := 1 }
+    Inv s ∧ AckOk s { fid := 10000, ackno := 512, pid := 0, ptime := 0 } ∧ (512 : Nat) ≠ s.last_ack ∧
+      (0 < s.dupack ∧ s.dupack < 3) := by
+  intro s
+  have hi : Inv (Sender.init .cubic (TCPCubic.defaults : CCState ℚ) 1 512 none 0) :=
+    inv_init _ _ _ _ _ _ (by refine ⟨?_, ?_, ?_, fun _ => ⟨?_, ?_⟩⟩ <;> simp [TCPCubic.defaults] <;> norm_num) (by norm_num)
+  exact ⟨hi.transfer rfl rfl rfl rfl rfl (Nat.le_refl 0), ⟨Nat.le_refl _, le_refl _⟩, by decide, by decide, by decide⟩
 
 /-- the hypotheses of `cubic_growth` are met by a CUBIC state in congestion avoidance -/
 example : let c : CCState ℚ := { (TCPCubic.defaults : CCState ℚ) with cwnd := 4096, ssthresh := 2048, cwnd_cnt := 3 }
